@@ -141,6 +141,11 @@ func (env *Env) BuildArg(e sx.Sexp, tags *[]string) (Arg, string, error) {
 		*tags = append(*tags, "ctor:enum-values")
 		return a, "ctor-wrong", fmt.Errorf("NewEnumType made %s of %s", back, term)
 	}
+	if !TyEq(back, a.Ty) && ContainsK(term, "strraw") {
+		// (strraw ..) says which type NewStringType must make of the bounds as given (model: mkStrRaw)
+		*tags = append(*tags, "ctor:string-bounds")
+		return a, "ctor-wrong", fmt.Errorf("NewStringType made %s of %s", back, term)
+	}
 	if !TyEq(back, a.Ty) {
 		*tags = append(*tags, "noncanon:"+diffHead(a.Ty, back))
 		return a, "unbuildable", fmt.Errorf("term is not in constructor-normal form: built %s", back)
